@@ -94,8 +94,9 @@ class Automaton:
         for c, outs in edges.items():
             for t, r in outs:
                 rev.setdefault(r, []).append((t, c))
-        comp = {c: () for c in accepting}
-        dq = deque(accepting)
+        comp = {c: () for c in sorted(accepting, key=lambda c_: (len(prefix[c_]), prefix[c_]))}
+        # deterministic order (parser states hash by identity: set order would vary from run to run)
+        dq = deque(sorted(accepting, key=lambda c_: (len(prefix[c_]), prefix[c_])))
         while dq:
             r = dq.popleft()
             for t, c in rev.get(r, []):
